@@ -88,9 +88,10 @@ impl Monitor for C15 {
             let mean = MEANS[i / (RATES.len() * EPSILONS.len())];
             (rate, eps, ((mean / rate).round() as u64).max(1))
         } else {
-            let rate = 10f64.powf(-3.0 + 4.0 * rng.f64());
+            // every fourth random case: a tiny rate, so that the interval length exceeds 2^32
+            let rate = if index % 4 == 3 { 10f64.powf(-11.0 + 5.0 * rng.f64()) } else { 10f64.powf(-3.0 + 4.0 * rng.f64()) };
             let eps = (10f64.powf(-12.0 + 12.0 * rng.f64())).min(0.5);
-            let mean = 10f64.powf(-3.0 + 6.78 * rng.f64());
+            let mean = if index % 4 == 3 { 10f64.powf(-1.0 + 4.5 * rng.f64()) } else { 10f64.powf(-3.0 + 6.78 * rng.f64()) };
             (rate, eps, ((mean / rate).round() as u64).max(1))
         };
         let mean = rate * delta as f64;
@@ -100,6 +101,9 @@ impl Monitor for C15 {
         }
         if mean > 125.0 {
             rep.count("means_above_125", 1);
+        }
+        if delta > u32::MAX as u64 {
+            rep.count("interval_lengths_above_2^32", 1);
         }
         if mean > 745.0 {
             rep.count("means_above_745", 1);
